@@ -4,6 +4,22 @@ from .core import HarnessError, Outcome, Violation, jhash
 from . import runs
 
 
+def known_cases(prop):
+    """Replay cases of recorded known findings (replays/known/<ID>-*.json);
+    executed on every run so that the KNOWN-FINDING line is printed."""
+    import glob
+    import json
+    import os
+
+    from .core import ROOT
+
+    out = []
+    for p in sorted(glob.glob(os.path.join(ROOT, "replays", "known",
+                                           f"{prop}-*.json"))):
+        out.append(json.load(open(p))["case"])
+    return out
+
+
 def exc_key(rep):
     return "exception:%s@%s" % (rep.get("exc_type"), rep.get("exc_where"))
 
